@@ -1,20 +1,56 @@
 #!/usr/bin/env python3
-"""Writes /tmp/agent_prompt_<Cxx>.txt: the complete task of an independent seeding agent (property text, scratch
-worktree, the conditions of the earlier seeded changes for that property - nothing else from /verif)."""
-import json, sys, glob, os, re
+"""usage: gen_agent_prompt.py <Cxx> [<worktree>]  - prints the complete task of an independent seeding agent: the property
+text, its scratch worktree, the conditions of the earlier seeded changes for that property (one line each, so that the agent
+produces something different) - nothing else from /verif."""
+import json, sys, glob
 pid = sys.argv[1]
-props = {json.loads(l)["id"]: json.loads(l) for l in open("/verif/properties.jsonl")}
-p = props[pid]
-tmpl = open("/tmp/agent_prompt_C16.txt").read()
-# the C16 prompt is the template: replace the property block and the list of earlier changes
-head, rest = tmpl.split("---\n", 1)
-_, tail = rest.split("---\n", 1)
-block = "%s: %s\n\n%s\n\nQuantifier: %s\n" % (pid, p["title"], p["statement"].strip(), p["quantifier"]["text"].strip())
-out = head + "---\n" + block + "---\n" + tail
-out = out.replace("/tmp/wt/C16", "/tmp/wt/" + pid)
-earlier = []
-for f in sorted(glob.glob("/verif/seeded/S-%s-*/meta.json" % pid)):
-    earlier.append(" - " + json.load(open(f))["needs"])
-out = re.sub(r"(manifest under these conditions:\n)( - .*\n)+", lambda m: m.group(1) + "\n".join(earlier) + "\n", out)
-open("/tmp/agent_prompt_%s.txt" % pid, "w").write(out)
-print(pid, len(earlier), "earlier changes listed")
+wt = sys.argv[2] if len(sys.argv) > 2 else "/tmp/wt/" + pid
+p = {json.loads(l)["id"]: json.loads(l) for l in open("/verif/properties.jsonl")}[pid]
+earlier = [" - " + json.load(open(f))["needs"] for f in sorted(glob.glob("/verif/seeded/S-%s-*/meta.json" % pid))]
+print(f"""You are helping to evaluate a verification effort for the Go project buraksezer/olric (module github.com/olric-data/olric,
+a distributed in-memory key/value store).  Your job is to play the part of a developer who, with a plausible-looking change,
+breaks ONE semantic property of olric without noticing - because the code still compiles and the existing tests still pass.
+
+Your own scratch git worktree of the repository is {wt} (already created; detached HEAD).  Work ONLY inside that directory.
+Never read or write /repo or /verif (they are off limits: what you produce must be independent of the verification machinery
+there), and do not look at other directories under /tmp/wt.  There is no network.  In every shell call:
+  export GOFLAGS=-mod=mod GOPROXY=off GOSUMDB=off GOTOOLCHAIN=local
+
+The property you must break:
+---
+{pid}: {p['title']}
+
+{p['statement'].strip()}
+
+Quantifier: {p['quantifier']['text'].strip()}
+---
+
+What I need from you:
+
+1. A change to the NON-test source of olric (any package; typically 1-30 lines; it should read like a refactoring, an
+   optimisation, a "simplification" or a well-meant fix that a reviewer might wave through) that makes the property FALSE.
+   Do not touch *_test.go files, and do not touch files guarded by the build tag `verif` or the package internal/verifhook
+   (leave every `verifhook.At(...)` line in place; you may move code around them).
+2. The change must need something SPECIFIC to manifest: a particular interleaving, a crash or fault at a particular point, a
+   multi-step sequence of operations, an unusual input or configuration, or two cooperating sites that each look fine alone.
+   NOT something that ordinary use (a Put followed by a Get on a one-member cluster) would expose at once.
+3. It must still compile (`go build ./... && go vet ./... 2>/dev/null; go test -count=1 -run '^$' ./...`) and the existing
+   test-suite must still pass: run `go test -vet=off -count=1 -timeout 25m ./...` in the worktree WITH your change applied and
+   make sure every package is `ok` (the suite takes about two minutes; a test that also fails without your change on a busy
+   machine - re-run that package alone to tell - does not count against you).
+4. A demonstration: a new test file `zz_demo_test.go` in the most convenient package (it may use the package's own test
+   helpers, e.g. testcluster / testutil, and internal APIs) with ONE test function `TestZZDemo` that FAILS with your change and
+   PASSES without it (check both: `git stash` / `git stash pop`, or apply the diff in reverse), deterministically or at least
+   in 9 of 10 runs.  Keep it under about a minute.
+5. The earlier changes made for this property manifest under these conditions - produce something DIFFERENT (a different
+   mechanism at a different place, not a variation of one of these):
+{chr(10).join(earlier) if earlier else ' - (none so far)'}
+
+When you are done leave in the worktree root:
+  - `patch.diff`   = `git diff` of the non-test source change ONLY (not the demo test, not these files)
+  - `zz_demo_test.go` copied to the worktree root as well, and a line in notes.md saying in which package directory it belongs
+  - `notes.md`     = what the change is, why it looks harmless, exactly what it needs in order to manifest, which commands you
+                     ran and what they printed (suite with the change: ok?, demo with: FAIL?, demo without: PASS?)
+Leave the worktree with the change APPLIED and the demo test in its package.  If you notice, while reading, behaviour of the
+UNCHANGED code that already contradicts the property, add a short section "Side notes" to notes.md (with how to reproduce).
+Your final message: the three file paths and a five-line summary.""")
